@@ -50,7 +50,7 @@ func (e *C03) Assumptions() []string {
 }
 func (e *C03) Plan(tier string, seed uint64) int {
 	if tier == "thorough" {
-		return 600000
+		return 1500000
 	}
 	return 40000
 }
@@ -152,7 +152,7 @@ func (e *C06) Assumptions() []string {
 }
 func (e *C06) Plan(tier string, seed uint64) int {
 	if tier == "thorough" {
-		return 200000
+		return 600000
 	}
 	return 12000
 }
@@ -234,7 +234,7 @@ func (e *C07) Assumptions() []string {
 }
 func (e *C07) Plan(tier string, seed uint64) int {
 	if tier == "thorough" {
-		return 200000
+		return 600000
 	}
 	return 12000
 }
